@@ -16,6 +16,9 @@ def obligations(tier):
         Ob("C01.implied-end-tags", "crosshair", "harness.C01:implied_end_tags", T, param={"idepth": 2 if q else 3}, bounds="stacks of depth <= %d over a 14-element class alphabet x every exclusion" % (2 if q else 3), encodes=[BASE + "generateImpliedEndTags"]),
         Ob("C01.reset-insertion-mode", "crosshair", "harness.C01:reset_mode", T, bounds="25 fragment context elements", encodes=["html5lib/html5parser.py:HTMLParser.resetInsertionMode", "html5lib/html5parser.py:HTMLParser.reset"]),
         Ob("C01.integration-points", "crosshair", "harness.C01:integration_points", T, bounds="16 (name, namespace) pairs x 9 encoding attribute values", encodes=["html5lib/html5parser.py:HTMLParser.isHTMLIntegrationPoint", "html5lib/html5parser.py:HTMLParser.isMathMLTextIntegrationPoint"]),
+        Ob("C01.adoption-agency.outer-loop", "crosshair", "harness.C01:adoption_outer_loop", T, bounds="<b|i|a> + 0..12 nested div + 'x</..>y': the outer loop runs at most 8 times (k blocks need k + 1 runs: y inside the formatting element iff k >= 8)", encodes=["html5lib/html5parser.py:InBodyPhase.endTagFormatting"]),
+        Ob("C01.table-text.whitespace", "crosshair", "harness.C01:table_text", T * 2, param={"tlen": 1 if q else 2}, bounds="<table> / <tbody> / <tr> context + text of 1..%d ARBITRARY Unicode characters (fully symbolic, through the real tokenizer and parser): in place iff all ASCII whitespace, else foster-parented" % (1 if q else 2),
+           encodes=["html5lib/html5parser.py:InTableTextPhase.flushCharacters", "html5lib/html5parser.py:InTablePhase.processCharacters", "html5lib/treebuilders/base.py:TreeBuilder.insertText"]),
         Ob("C01.quirks-mode", "crosshair", "harness.C01:quirks", T, bounds="29 doctypes x keyword case; compatMode and the p/table nesting it controls", encodes=["html5lib/html5parser.py:InitialPhase.processDoctype", "html5lib/html5parser.py:InBodyPhase.startTagTable"]),
     ]
     for v in range(5):
